@@ -78,6 +78,7 @@ typedef struct Pkt {
 static Pkt *g_pk;
 static int  g_npk;
 
+static int g_buf_slack; /* bytes allocated beyond each temporal unit (0: the buffer is exactly data_size long) */
 static int load_pkts(const char *path) {
     FILE *f = fopen(path, "rb");
     if (!f)
@@ -97,7 +98,8 @@ static int load_pkts(const char *path) {
         Pkt *p = &g_pk[g_npk];
         p->len = n, p->pts = pts, p->flags = rest[0], p->pic_type = rest[1];
         p->sse[0] = rest[2], p->sse[1] = rest[3], p->sse[2] = rest[4];
-        p->data = malloc(n ? n : 1);
+        p->data = malloc((n ? n : 1) + (size_t)g_buf_slack);
+        memset(p->data + n, 0, (size_t)g_buf_slack);
         if (fread(p->data, 1, n, f) != n)
             break;
         g_npk++;
@@ -292,6 +294,7 @@ int main(int argc, char **argv) {
         else if (!strcmp(a, "-w")) w = atoi(NEXT);
         else if (!strcmp(a, "-h")) h = atoi(NEXT);
         else if (!strcmp(a, "--bits")) bits = atoi(NEXT);
+        else if (!strcmp(a, "--buf-slack")) g_buf_slack = atoi(NEXT);
         else if (!strcmp(a, "--timeout")) timeout_s = atoi(NEXT);
         else if (!strcmp(a, "--src")) {
             char kind[32];
